@@ -31,7 +31,12 @@ Inductive vexpr :=
 | XDot (m v : vexpr)                      (* M.dot(v) *)
 | XLet (x : string) (a b : vexpr)         (* x = a; b *)
 | XIfNone (x : string) (t e : vexpr)      (* t if x is None else e *)
-| XLoop (count : vexpr) (x : string) (body rest : vexpr).   (* for _ in range(count): x = body ; then rest *)
+| XLoop (count : vexpr) (x : string) (body rest : vexpr)    (* for _ in range(count): x = body ; then rest *)
+(* --- clustering/metrics.py (C06) --- *)
+| XProbs (kind m : vexpr)                 (* get_probs(weights, M): 'degree' -> M.1 / sum, 'uniform' -> 1 / n *)
+| XMembership (labels : vexpr)            (* get_membership(labels): n x (max label + 1) indicator matrix, negative labels ignored *)
+| XDiagonal (a : vexpr)                   (* M.diagonal() *)
+| XSum (a : vexpr).                       (* v.sum(), M.sum(), M.data.sum() *)
 
 Section Carrier.
   Context {T : Type}.
@@ -47,7 +52,9 @@ Section Carrier.
   | WV (n : nat) (f : nat -> T)
   | WB (n : nat) (b : nat -> bool)
   | WM (n k : nat) (f : nat -> nat -> T)
-  | WNone.
+  | WNone
+  | WLab (l : list Z)                       (* integer label vector (negative = no label) *)
+  | WKind (degree : bool).                  (* the string 'degree' (true) / 'uniform' (false) *)
 
   Definition venv := list (string * vvalue).
   Fixpoint vlookup (x : string) (r : venv) : option vvalue :=
@@ -102,6 +109,7 @@ Section Carrier.
     | XLen a =>
         match vdenote r a with
         | Some (WV n _) => Some (WN n) | Some (WB n _) => Some (WN n) | Some (WM n _ _) => Some (WN n)
+        | Some (WLab l) => Some (WN (List.length l))
         | _ => None
         end
     | XOnes a => match vdenote r a with Some (WN n) => Some (WV n (fun _ => t1)) | _ => None end
@@ -151,6 +159,10 @@ Section Carrier.
         match vdenote r m, vdenote r v with
         | Some (WM n k f), Some (WV k' h) =>
             if k =? k' then Some (WV n (memo n (fun i => vsum k (fun j => tmul (f i j) (h j))))) else None
+        | Some (WM n k f), Some (WM k' m' h) =>
+            if k =? k' then Some (WM n m' (fun i c => vsum k (fun j => tmul (f i j) (h j c)))) else None
+        | Some (WV n f), Some (WV n' h) =>
+            if n =? n' then Some (WS (vsum n (fun i => tmul (f i) (h i)))) else None
         | _, _ => None
         end
     | XLet x a b => match vdenote r a with Some va => vdenote ((x, va) :: r) b | None => None end
@@ -159,6 +171,32 @@ Section Carrier.
         | Some WNone => vdenote r t
         | Some _ => vdenote r e
         | None => None
+        end
+    | XProbs kd a =>
+        match vdenote r kd, vdenote r a with
+        | Some (WKind true), Some (WM n k f) =>
+            Some (WV n (fun i => tdiv (vsum k (f i)) (vsum n (fun i' => vsum k (f i')))))
+        | Some (WKind false), Some (WM n k f) =>
+            Some (WV n (fun _ => tdiv t1 (vsum n (fun _ => t1))))
+        | _, _ => None
+        end
+    | XMembership a =>
+        match vdenote r a with
+        | Some (WLab l) =>
+            let kk := Z.to_nat (fold_right Z.max (-1)%Z l + 1) in
+            Some (WM (List.length l) kk (fun i c => if Z.eqb (nth i l (-1)%Z) (Z.of_nat c) then t1 else t0))
+        | _ => None
+        end
+    | XDiagonal a =>
+        match vdenote r a with
+        | Some (WM n k f) => Some (WV (Nat.min n k) (fun i => f i i))
+        | _ => None
+        end
+    | XSum a =>
+        match vdenote r a with
+        | Some (WV n f) => Some (WS (vsum n f))
+        | Some (WM n k f) => Some (WS (vsum n (fun i => vsum k (f i))))
+        | _ => None
         end
     | XLoop c x body rest =>
         match vdenote r c, vlookup x r with
@@ -191,3 +229,10 @@ Definition qenv_fit (A : list (list Q)) (n : nat) (seeds : list Q) (init : optio
   ("adjacency", wmat 0%Q A n n) :: ("values", wvec 0%Q seeds) ::
   ("init", match init with Some q => WS q | None => WNone end) ::
   ("self.n_iter", WN n_iter) :: ("self.damping_factor", WS damping) :: nil.
+
+(** environment of get_modularity after its prologue: the square adjacency, the (stacked) label vector, the options *)
+Definition qenv_modularity (A : list (list Q)) (n : nat) (labels : list Z) (degree : bool) (resolution : Q) : venv :=
+  ("adjacency", wmat 0%Q A n n) :: ("labels", WLab labels) :: ("weights", WKind degree) ::
+  ("resolution", WS resolution) :: nil.
+Definition qsresult (v : option (vvalue Q)) : list Q :=
+  match v with Some (WS x) => [Qred x] | _ => [] end.
